@@ -131,7 +131,7 @@ theorem IsPSDKernel.of_tendsto {F : ℕ → X → X → ℝ} (h : ∀ m, IsPSDKe
     simpa [fun m => (h m).symm b a] using hl b a
   · refine ge_of_tendsto' (x := Filter.atTop) (f := fun m => ∑ i, ∑ j, c i * F m (x i) (x j) * c j) ?_
       fun m => (h m).quad_nonneg x c
-    refine tendsto_finset_sum _ fun i _ => tendsto_finset_sum _ fun j _ => ?_
+    refine tendsto_finsetSum _ fun i _ => tendsto_finsetSum _ fun j _ => ?_
     exact ((hl (x i) (x j)).const_mul (c i)).mul_const (c j)
 
 /-- entrywise exponential of a PSD kernel is PSD (power series + Schur products + limit) -/
@@ -181,7 +181,7 @@ theorem IsPSDKernel.delta [DecidableEq X] : IsPSDKernel fun a b : X => if a = b 
       = ∑ e ∈ Finset.univ.image x, vecMulVec (fun i => if x i = e then (1 : ℝ) else 0)
           (star fun i => if x i = e then (1 : ℝ) else 0) := by
     ext i j
-    simp only [of_apply, Matrix.sum_apply, vecMulVec_apply, Pi.star_apply, star_trivial]
+    simp only [of_apply, Matrix.sum_apply, vecMulVec_apply, star_trivial]
     rw [Finset.sum_eq_single (x i)]
     · by_cases hij : x i = x j
       · simp [hij]
